@@ -30,6 +30,9 @@ func init() {
 // a scenario is a ';'-separated action list, e.g.
 // "ps 0 0;sub 0 1;allow 0 2;pub 0 0 pubsync 7,8;unsub 0 0 0;withonly 1 0 0;unsuball 0 0;mkchan 5;nilunsub 1 0"
 func genScenario(r *rand.Rand, withClone bool) string {
+	if withClone && r.Intn(4) == 0 {
+		return genCloneSplice(r)
+	}
 	tmo := []int{0, 0, 2}[r.Intn(3)]
 	acts := []string{fmt.Sprintf("ps %d %d", tmo, r.Intn(2))}
 	nextChan, nextVal, nextPub, nextUnsub, nextAll, nextClone := 0, 1, 0, 0, 0, 1
@@ -116,6 +119,40 @@ func genScenario(r *rand.Rand, withClone bool) string {
 		if r.Intn(3) > 0 {
 			acts = append(acts, fmt.Sprintf("allow %d 4", c))
 		}
+	}
+	return strings.Join(acts, ";")
+}
+
+// genCloneSplice: sequenced scenarios (settled between phases) about what a WithOnly clone keeps publishing to while the
+// parent's subscriber list is spliced and appended to around it: 2-4 buffered subscribers, a clone of one of them, then
+// Unsub of OTHER subscribers and/or new Subs on the parent, then a synchronous publish through the clone (and one
+// through the parent). The clone's own channel is never unsubscribed here (that history is the known finding).
+func genCloneSplice(r *rand.Rand) string {
+	acts := []string{"ps 0 0"}
+	n := 2 + r.Intn(3)
+	for c := 0; c < n; c++ {
+		acts = append(acts, fmt.Sprintf("sub %d %d", c, 2+r.Intn(2)), "wait")
+	}
+	target := r.Intn(n)
+	acts = append(acts, fmt.Sprintf("withonly 1 0 %d", target), "wait")
+	nextChan, nextUnsub := n, 0
+	for i, k := 0, 1+r.Intn(2); i < k; i++ {
+		if r.Intn(3) > 0 {
+			c := r.Intn(n)
+			if c == target {
+				c = (c + 1 + r.Intn(n-1)) % n
+			}
+			acts = append(acts, fmt.Sprintf("unsub %d 0 %d", nextUnsub, c), "wait")
+			nextUnsub++
+		} else {
+			acts = append(acts, fmt.Sprintf("sub %d %d", nextChan, 2), "wait")
+			nextChan++
+		}
+	}
+	variant := []string{"pubsync", "pubslicesync", "pubwait"}[r.Intn(3)]
+	acts = append(acts, fmt.Sprintf("pub 0 1 %s 1", variant), "wait", "pub 1 0 pubsync 2", "wait")
+	for c := 0; c < nextChan; c++ {
+		acts = append(acts, fmt.Sprintf("allow %d 4", c))
 	}
 	return strings.Join(acts, ";")
 }
@@ -455,7 +492,10 @@ func pubsubChild(args []string) int {
 				p.omu.Unlock()
 				close(p.cready[w])
 			})
-		case "wait": // let everything settle (used by hand-written scripts)
+		case "wait": // let everything settle: the calls spawned so far have logged their invocation and returned or blocked
+			for i := 0; i < 50 && atomic.LoadInt64(&p.pending) > 0; i++ {
+				time.Sleep(200 * time.Microsecond)
+			}
 			p.settle(20 * time.Millisecond)
 		}
 		if r.Intn(3) > 0 {
